@@ -3,6 +3,7 @@
 package reflection
 
 import (
+	dtpb "github.com/google/fhir/go/proto/google/fhir/proto/r4/core/datatypes_go_proto"
 	bpb "github.com/google/fhir/go/proto/google/fhir/proto/r4/core/resources/bundle_and_contained_resource_go_proto"
 	oopb "github.com/google/fhir/go/proto/google/fhir/proto/r4/core/resources/operation_outcome_go_proto"
 	ppb "github.com/google/fhir/go/proto/google/fhir/proto/r4/core/resources/patient_go_proto"
@@ -99,5 +100,32 @@ func VerifHarness_C12_R4Datatypes() {
 	verifrt.Assert(bool(ts.Is(TypeSpecifier{FHIR, "Element"})), "datatype-is-Element")
 	verifrt.Assert(bool(ts.Is(TypeSpecifier{FHIR, "BackboneElement"})) == verifR4Datatypes[name], "datatype-is-BackboneElement-exactly-when-r4-says-so")
 	verifrt.Assert(!bool(ts.Is(TypeSpecifier{FHIR, "Resource"})), "datatype-is-not-a-resource")
+	verifrt.Reach("end")
+}
+
+// C12: TypeOf is a function of the value alone - calling it for one variant of a choice element (or for any other
+// value) first does not change what it says about the next one. (What a per-type cache keyed before the choice is
+// looked through would break.)
+func VerifHarness_C12_TypeOfHasNoMemory() {
+	mk := func(label string) (any, string) {
+		switch verifrt.Choose(label, 4) {
+		case 0:
+			return &ppb.Patient_DeceasedX{Choice: &ppb.Patient_DeceasedX_Boolean{Boolean: &dtpb.Boolean{}}}, "boolean"
+		case 1:
+			return &ppb.Patient_DeceasedX{Choice: &ppb.Patient_DeceasedX_DateTime{DateTime: &dtpb.DateTime{}}}, "dateTime"
+		case 2:
+			return &ppb.Patient_MultipleBirthX{Choice: &ppb.Patient_MultipleBirthX_Integer{Integer: &dtpb.Integer{}}}, "integer"
+		default:
+			return &dtpb.HumanName{}, "HumanName"
+		}
+	}
+	first, want1 := mk("first")
+	second, want2 := mk("second")
+	t1, err1 := TypeOf(first)
+	t2, err2 := TypeOf(second)
+	t3, err3 := TypeOf(first)
+	verifrt.Assert(err1 == nil && t1.namespace == FHIR && t1.typeName == want1, "typeof-looks-through-the-choice-wrapper")
+	verifrt.Assert(err2 == nil && t2.namespace == FHIR && t2.typeName == want2, "typeof-of-the-next-value-is-not-influenced-by-the-previous-call")
+	verifrt.Assert(err3 == nil && t3 == t1, "typeof-is-repeatable")
 	verifrt.Reach("end")
 }
